@@ -164,6 +164,183 @@ example : ∀ u, Impl.parse sampleIdna .u8 c02bInput none = some u →
     Impl.parse sampleIdna .u8 (Impl.serialize u) (some c02BaseOpaque) = some u :=
   fun u h => C02_reparse_parsed sampleIdna sampleIdna_stable .u8 c02bInput none u (Or.inl rfl) h _
 
+/-! ### 4. the setters keep the normal form, up to the Standard-made exception -/
+
+/-- The two kinds of file URL records that "serialise, parse again" changes (`C02_file_exception`):
+    the host text is `localhost` or a drive letter, or the first path segment is `X|`. -/
+def FileExc (u : Url) : Prop :=
+  u.isFile = true ∧ (hostFileOk u.hostText = false ∨ driveOk u.path = false)
+
+instance (u : Url) : Decidable (FileExc u) := by unfold FileExc; infer_instance
+
+/-- `Norm` without its two file-only clauses: the host text clause is taken as for a non-file URL
+    (`hostTextOk u.isSpecial false`) and the `driveOk` clause is dropped.  Everything else is as in `Norm`. -/
+def NormX (idna : Idna) (u : Url) : Prop :=
+  Proofs.C02.schemeOk u.scheme = true ∧
+  (u.hasOpaquePath = true → u.host = none ∧ u.path = [] ∧ u.isSpecial = false) ∧
+  (u.hasOpaquePath = false → u.opaquePath = []) ∧
+  (u.isSpecial = true → u.host ≠ none ∧ u.path ≠ []) ∧
+  (u.isSpecial = true → u.isFile = false → u.hostText ≠ []) ∧
+  (u.isFile = true ∨ u.hostText = [] → u.username = [] ∧ u.password = [] ∧ u.port = none) ∧
+  (u.isSpecial = false → u.host = none → u.hasOpaquePath = false → u.path ≠ []) ∧
+  Proofs.C02.userinfoOk u.username = true ∧ Proofs.C02.userinfoOk u.password = true ∧
+  (∀ h ∈ u.host, hostTextOk u.isSpecial false h.text = true ∧ HostStable idna u.isSpecial h) ∧
+  portOk u.scheme u.port = true ∧
+  (∀ seg ∈ u.path, segOk u.isSpecial seg = true) ∧
+  (u.hasOpaquePath = true → opaqueOk u.opaquePath (u.query.isNone && u.fragment.isNone) = true) ∧
+  (∀ q ∈ u.query, queryOk u.isSpecial q = true) ∧
+  (∀ f ∈ u.fragment, fragmentOk f = true)
+
+instance (idna : Idna) (u : Url) : Decidable (NormX idna u) := by unfold NormX; infer_instance
+
+theorem NormX.toAll {idna : Idna} {u : Url} (h : NormX idna u) : Proofs.C02b.All idna false u := by
+  obtain ⟨h1, h2, h3, h4, h5, h6, h7, h8, h9, h10, h11, h12, h14, h15, h16⟩ := h
+  refine Proofs.C02b.all_of_normPX
+    ⟨h1, ⟨h2, h3, h4, h5, h6, h7⟩, h8, h9, fun h hh => h10 h hh, h11, h12, fun hc => by simp at hc, h14, ?_, ?_⟩
+  · cases hq : u.query with
+    | none => rfl
+    | some q => exact h15 q hq
+  · cases hf : u.fragment with
+    | none => rfl
+    | some f => exact h16 f hf
+
+theorem NormX.ofAll {idna : Idna} {u : Url} (h : Proofs.C02b.All idna false u) : NormX idna u := by
+  have h := Proofs.C02b.normPX_of_all h
+  obtain ⟨s1, s2, s3, s4, s5, s6⟩ := h.shape
+  refine ⟨h.scheme, s1, s2, s3, s4, s5, s6, h.user, h.pass, fun x hx => h.host x hx, h.port, h.segs,
+    h.opq, ?_, ?_⟩
+  · intro q hq
+    have := h.query
+    rw [show u.query = some q from hq] at this
+    exact this
+  · intro f hf
+    have := h.frag
+    rw [show u.fragment = some f from hf] at this
+    exact this
+
+/-- `Norm` is `NormX` plus "not one of the two exceptional file URL records" -/
+theorem C02_norm_iff_normx : ∀ (idna : Idna) (u : Url), Norm idna u ↔ (NormX idna u ∧ ¬ FileExc u) := by
+  intro idna u
+  constructor
+  · intro h
+    have ha := Proofs.C02b.all_of_normP h.toNormP
+    refine ⟨NormX.ofAll ha.weaken, ?_⟩
+    rintro ⟨hf, hx⟩
+    obtain ⟨a, b⟩ := ha.fileClauses hf
+    rcases hx with hx | hx
+    · rw [a] at hx; exact absurd hx (by simp)
+    · rw [b] at hx; exact absurd hx (by simp)
+  · rintro ⟨h, hx⟩
+    refine Norm.ofNormP (Proofs.C02b.normP_of_all (h.toAll.strengthen ?_))
+    intro hf
+    constructor
+    · cases ha : hostFileOk u.hostText with
+      | true => rfl
+      | false => exact absurd ⟨hf, Or.inl ha⟩ hx
+    · cases ha : driveOk u.path with
+      | true => rfl
+      | false => exact absurd ⟨hf, Or.inr ha⟩ hx
+
+/-- every setter other than `protocol` keeps the normal form (also when it reports failure: a failing
+    state-override run may have written parts, exactly as in the Standard) -/
+theorem C02_set_norm :
+    ∀ idna, IdnaStable idna → ∀ (s : Impl.Setter) (e : Enc) (units : List Nat) (u : Url),
+      s ≠ .protocol → Norm idna u → Norm idna (Impl.setValid idna s e units u).1 :=
+  fun _ hi s e units u hs h =>
+    Norm.ofNormP (Proofs.C02b.normP_of_all
+      (Proofs.C02b.set_all hi s e units u (Proofs.C02b.all_of_normP h.toNormP) (fun hc => absurd hc hs)))
+
+/-- every setter, `protocol` included, keeps `NormX` -/
+theorem C02_set_normx :
+    ∀ idna, IdnaStable idna → ∀ (s : Impl.Setter) (e : Enc) (units : List Nat) (u : Url),
+      NormX idna u → NormX idna (Impl.setValid idna s e units u).1 :=
+  fun _ hi s e units u h => NormX.ofAll (Proofs.C02b.set_all hi s e units u h.toAll (fun _ => rfl))
+
+/-- the protocol setter: the result is in normal form, or it is one of the two exceptional records -/
+theorem C02_set_protocol :
+    ∀ idna, IdnaStable idna → ∀ (e : Enc) (units : List Nat) (u : Url), Norm idna u →
+      Norm idna (Impl.setValid idna .protocol e units u).1 ∨
+        FileExc (Impl.setValid idna .protocol e units u).1 := by
+  intro idna hi e units u h
+  have hx := C02_set_normx idna hi .protocol e units u ((C02_norm_iff_normx idna u).1 h).1
+  by_cases hf : FileExc (Impl.setValid idna .protocol e units u).1
+  · exact Or.inr hf
+  · exact Or.inl ((C02_norm_iff_normx idna _).2 ⟨hx, hf⟩)
+
+/-- a sequence of setter calls -/
+def applySetters (idna : Idna) (u : Url) (calls : List (Impl.Setter × Enc × List Nat)) : Url :=
+  calls.foldl (fun u c => (Impl.setValid idna c.1 c.2.1 c.2.2 u).1) u
+
+/-- After any sequence of setter calls on a normal-form URL (in particular: on a parsed URL), the URL
+    is re-parsed from its href to itself, unless it is one of the two exceptional file URL records. -/
+theorem C02_setters_reparse :
+    ∀ idna, IdnaStable idna → ∀ (u : Url), Norm idna u → ∀ calls : List (Impl.Setter × Enc × List Nat),
+      NormX idna (applySetters idna u calls) ∧
+      (¬ FileExc (applySetters idna u calls) →
+        Norm idna (applySetters idna u calls) ∧
+        ∀ base' : Option Url,
+          Impl.parse idna .u8 (Impl.serialize (applySetters idna u calls)) base' = some (applySetters idna u calls)) := by
+  intro idna hi u h calls
+  have hx : NormX idna (applySetters idna u calls) := by
+    have h0 := ((C02_norm_iff_normx idna u).1 h).1
+    unfold applySetters
+    clear h
+    induction calls generalizing u with
+    | nil => exact h0
+    | cons c cs ih => exact ih _ (C02_set_normx idna hi c.1 c.2.1 c.2.2 u h0)
+  refine ⟨hx, fun hf => ?_⟩
+  have hn := (C02_norm_iff_normx idna _).2 ⟨hx, hf⟩
+  exact ⟨hn, fun base' => C02_reparse idna _ hn base' (by cases base' <;> simp)⟩
+
+/-- without a `protocol` call there is no exception -/
+theorem C02_setters_norm :
+    ∀ idna, IdnaStable idna → ∀ (u : Url), Norm idna u → ∀ calls : List (Impl.Setter × Enc × List Nat),
+      (∀ c ∈ calls, c.1 ≠ .protocol) → Norm idna (applySetters idna u calls) := by
+  intro idna hi u h calls hc
+  unfold applySetters
+  induction calls generalizing u with
+  | nil => exact h
+  | cons c cs ih =>
+    exact ih _ (C02_set_norm idna hi c.1 c.2.1 c.2.2 u (hc c List.mem_cons_self) h)
+      (fun d hd => hc d (List.mem_cons_of_mem _ hd))
+
+/-- `url_search_params::update` (query := serialised list, or query removed and trailing spaces of an
+    opaque path stripped) keeps the normal form -/
+theorem C02_update_norm :
+    ∀ (idna : Idna) (o : Impl.UrlObj), (∀ u, o.url = some u → Norm idna u) →
+      (∀ p, o.sp = some p → ∀ pr ∈ p.list, (∀ b ∈ pr.1, b < 256) ∧ (∀ b ∈ pr.2, b < 256)) →
+      ∀ u', o.update.url = some u' → Norm idna u' :=
+  fun _ o hu hsp u' hu' =>
+    Norm.ofNormP (Proofs.C02b.normP_of_all
+      (Proofs.C02b.update_all o (fun u h => Proofs.C02b.all_of_normP (hu u h).toNormP) hsp u' hu'))
+
+-- the exception arises (http://h/C|/x, protocol := "file") and disappears again (pathname := "/C|/y":
+-- now the drive letter is normalised by the path block)
+example : ∃ b, Impl.parse sampleIdna .u8 (asciiStr "http://h/C|/x") none = some b ∧ Norm sampleIdna b ∧
+    applySetters sampleIdna b [(.protocol, .u8, asciiStr "file")] = c02DriveBar ∧
+    FileExc c02DriveBar ∧ NormX sampleIdna c02DriveBar ∧ ¬ Norm sampleIdna c02DriveBar ∧
+    applySetters sampleIdna b [(.protocol, .u8, asciiStr "file"), (.pathname, .u16, asciiStr "/C|/y")] =
+      { c02DriveBar with path := [asciiStr "C:", asciiStr "y"] } ∧
+    Norm sampleIdna { c02DriveBar with path := [asciiStr "C:", asciiStr "y"] } := by decide +kernel
+-- the other exception: http://localhost/x, protocol := "file"; then host := "LocalHost" gives the empty host
+example : ∃ b, Impl.parse sampleIdna .u8 (asciiStr "http://localhost/x") none = some b ∧ Norm sampleIdna b ∧
+    applySetters sampleIdna b [(.protocol, .u8, asciiStr "file")] = c02Localhost ∧
+    FileExc c02Localhost ∧ NormX sampleIdna c02Localhost ∧
+    applySetters sampleIdna b [(.protocol, .u8, asciiStr "file"), (.host, .u8, asciiStr "LocalHost")] =
+      { c02Localhost with host := some emptyHost } ∧
+    Norm sampleIdna { c02Localhost with host := some emptyHost } := by decide +kernel
+-- search := "" strips the trailing space of an opaque path (the href would lose it otherwise)
+example : ∃ b, Impl.parse sampleIdna .u8 (asciiStr "a:x ?q") none = some b ∧
+    b = { scheme := asciiStr "a", hasOpaquePath := true, opaquePath := asciiStr "x ", query := some (asciiStr "q") } ∧
+    applySetters sampleIdna b [(.search, .u8, [])] =
+      { scheme := asciiStr "a", hasOpaquePath := true, opaquePath := asciiStr "x" } ∧
+    Norm sampleIdna (applySetters sampleIdna b [(.search, .u8, [])]) := by decide +kernel
+-- an instance of the theorem: any calls on a parsed URL
+example : ∀ b calls, Impl.parse sampleIdna .u8 (asciiStr "http://h/C|/x") none = some b →
+    NormX sampleIdna (applySetters sampleIdna b calls) :=
+  fun b calls h => (C02_setters_reparse sampleIdna sampleIdna_stable b
+    (C02_parse_norm sampleIdna sampleIdna_stable .u8 _ none b (Or.inl rfl) h) calls).1
+
 end Upa.Props
 
 #print axioms Upa.Props.C02_host_stable
@@ -171,3 +348,10 @@ end Upa.Props
 #print axioms Upa.Props.C02_reparse_parsed
 #print axioms Upa.Props.C02_reparse_idempotent
 #print axioms Upa.Props.C02_parse_norm_chain
+#print axioms Upa.Props.C02_norm_iff_normx
+#print axioms Upa.Props.C02_set_norm
+#print axioms Upa.Props.C02_set_normx
+#print axioms Upa.Props.C02_set_protocol
+#print axioms Upa.Props.C02_setters_reparse
+#print axioms Upa.Props.C02_setters_norm
+#print axioms Upa.Props.C02_update_norm
